@@ -23,6 +23,7 @@ mod syntax_term;
 mod fmtworker;
 mod c19;
 mod c05fmt;
+mod c05long;
 mod price;
 mod c09;
 mod c10;
@@ -58,6 +59,7 @@ fn main() {
         c05::install_panic_capture();
         child::child_main(&args[2..], &|mode, input| match mode {
             "c05" => c05::child_observe(input),
+            "c05file" => c05long::child_observe(input),
             "c06" => c06::child_observe(input),
             "c06load" => c06::child_load(input),
             "c06price" => c06::child_price(input),
